@@ -1,16 +1,38 @@
 #!/usr/bin/env python3
-# fill the @C1x-nn-s@ placeholders of DESIGN.md section 7.2 from a tools/seeded.sh log
+# Fill the s1/s2 columns of the table in DESIGN.md section 7.2 from a tools/seeded.sh
+# log (seeds 1 and 2); the s3 column keeps what an earlier run recorded.
+#   usage: tools/fill_matrix.py <log> [--write]
 import re, sys
 log = open(sys.argv[1]).read()
 res = {}
-for m in re.finditer(r'^(\S+) \[(C1[01])\] seed=(\d+) exit=(\d+) violations=(\d+)', log, re.M):
-    i, prop, seed, ex, v = m.groups()
-    res[(i, seed)] = 'Y' if ex == '1' and int(v) > 0 else ('exit 2' if ex == '2' else 'missed')
+for m in re.finditer(r'^(\S+) \[(C1[01])\] seed=(\d+) exit=(\d+) violations=(\d+) time=(\d+)s expect=(\w+)', log, re.M):
+    i, prop, seed, ex, v, t, exp = m.groups()
+    if exp != 'violation':
+        continue
+    cell = 'Y' if ex == '1' and int(v) > 0 else ('exit 2' if ex == '2' else 'missed')
+    if cell == 'Y' and not i.startswith(prop) and i[0] == 'C':
+        cell = 'Y (%s)' % prop
+    res[(i, seed)] = cell
 p = '/verif/DESIGN.md'
-s = open(p).read()
-def sub(m):
-    k = (m.group(1), m.group(2))
-    return res.get(k, m.group(0))
-s = re.sub(r'@(C1[01]-\d\d)-(\d)@', sub, s)
-open(p, 'w').write(s)
-print(sorted(set(res.values())), len(res))
+out = []
+n = 0
+for line in open(p).read().split('\n'):
+    m = re.match(r'^\| (C1[01]-\d\d) \|', line)
+    if m and (m.group(1), '1') in res:
+        cells = line.split(' | ')
+        # last three cells: s1 | s2 | s3 |
+        s3 = cells[-1].rstrip(' |')
+        cells[-3] = res[(m.group(1), '1')]
+        cells[-2] = res.get((m.group(1), '2'), '–')
+        cells[-1] = s3 + ' |'
+        line = ' | '.join(cells)
+        n += 1
+    out.append(line)
+tot = {}
+for (i, seed), c in res.items():
+    tot.setdefault(seed, {}).setdefault(c.split(' ')[0], []).append(i)
+for seed in sorted(tot):
+    print('seed', seed, {k: len(v) for k, v in tot[seed].items()}, 'not caught:', sorted(sum([v for k, v in tot[seed].items() if k != 'Y'], [])))
+print('rows updated:', n)
+if '--write' in sys.argv:
+    open(p, 'w').write('\n'.join(out))
